@@ -103,7 +103,7 @@ func runC14(s *core.Sim, tier string) RunInfo {
 				defer func() { callsMu.Lock(); calls = append(calls, c); callsMu.Unlock() }()
 				switch {
 				case sc.kind == "slow":
-					time.Sleep(time.Second)
+					s.YieldAfter("handler-slow", time.Second) // (through the scheduler: parallel workers woken at one instant run in tape order)
 					c.result = "ok"
 				case sc.kind == "err" && sc.n == sc.at:
 					c.result = "err"
@@ -234,7 +234,7 @@ func runC14(s *core.Sim, tier string) RunInfo {
 				failed, failedAt = true, c.height
 			}
 		}
-		for h := range gone {
+		for _, h := range sortedHeights(gone) {
 			if h < from || h >= to {
 				s.Violate("outside-range-removed", at, "DeleteRange(%d,%d) on %s removed height %d", from, to, before, h)
 				continue
